@@ -5,6 +5,7 @@ package e6resource
 
 import (
 	"fmt"
+	"reflect"
 
 	"github.com/mfcochauxlaberge/jsonapi"
 
@@ -60,6 +61,11 @@ func (Engine) Describe(prop string) core.Description {
 		d.Probes = []string{"mutate-slice-write-ids", "mutate-slice-write-bytes", "mutate-slice-write-ptr-bytes", "mutate-marshal", "mutate-filter", "mutate-type-edit", "mutate-set", "copy-of-wrapped", "copy-of-soft", "new-of-wrapped", "new-of-soft", "type-copy", "copy-of-copy", "mutate-type-edit-via-GetType", "mutate-append-through-get", "soft-of-struct-built-type"}
 	}
 
+	if prop == "C17" {
+		d.Rule += "; in half of the runs a third twin, Wrap given a struct value instead of a pointer; types may have no attribute at all"
+		d.Probes = append(d.Probes, "twin-wrapped-from-struct-value", "type-with-relationships-only")
+	}
+
 	return d
 }
 
@@ -110,7 +116,7 @@ func runC17(t *core.Tape, st *core.Stats) *core.Violation {
 		return runC17Soft(t, st)
 	}
 
-	ts := drawType(t, 1)
+	ts := drawType(t, 0)
 	t.Logf("%s", ts.Describe())
 
 	var (
@@ -142,6 +148,24 @@ func runC17(t *core.Tape, st *core.Stats) *core.Violation {
 
 	model := world.NewResSpec(ts)
 	twins := []twin{{"soft", soft}, {"wrapped", wrapped}}
+
+	// a third twin in half of the runs: Wrap given a struct value instead of a
+	// pointer (it works on a copy of its own then)
+	if t.Bool(1, 2) {
+		var byValue jsonapi.Resource
+
+		if p := core.Call(func() { byValue = jsonapi.Wrap(reflect.New(ts.GoStruct()).Elem().Interface()) }); p != nil {
+			return viol(P, "no-panic", p.Func, "wrap-struct-value:"+p.Class, "Wrap of a struct value of %s panicked: %s", ts.Describe(), p.Value)
+		}
+
+		twins = append(twins, twin{"wrapped-struct-value", byValue})
+
+		st.Inc("probe:twin-wrapped-from-struct-value")
+	}
+
+	if len(ts.Attrs) == 0 && len(ts.Rels) > 0 {
+		st.Inc("probe:type-with-relationships-only")
+	}
 
 	check := func(when string) *core.Violation {
 		want := model.ExpectedObservation(false)
